@@ -497,7 +497,7 @@ impl Prop for Authoritative {
         120
     }
     fn cases(&self, tier: Tier) -> u64 {
-        tier.pick(480, 24_000)
+        tier.pick(1_600, 40_000)
     }
     fn generate(&self, g: &mut Gen) -> Batch {
         let n = g.range(1, 16);
